@@ -96,6 +96,45 @@ class PropertyRun:
         rep.obligations.append(ob)
         return ob
 
+    def verify_many(self, items, models_factory=Models, max_paths=400, jobs=None):
+        """Verify several contracts in parallel worker processes (fork).  Contracts whose obligations are all proved are
+        reported from the workers' summaries; any other contract is re-verified in this process so that its obligations,
+        counter-models and path objects are available for triage.  Returns the list of FunctionReports in order."""
+        import multiprocessing as mp
+
+        from .contract import FunctionReport
+        from .interp import Obligation
+
+        jobs = jobs or min(len(items), int(os.environ.get("PVC_JOBS", "8")), max(1, (os.cpu_count() or 2) - 1))
+        if jobs <= 1 or len(items) <= 1:
+            return [self.verify(c, cs, models_factory, max_paths) for c, cs in items]
+        global _WORK_ITEMS
+        _WORK_ITEMS = (items, models_factory, max_paths)
+        ctx = mp.get_context("fork")
+        with ctx.Pool(jobs) as pool:
+            summaries = pool.map(_verify_worker, range(len(items)))
+        reps = []
+        for (c, cs), sm in zip(items, summaries):
+            clean = sm["status"] == "ok" and all(o["status"] == "unsat" for o in sm["obligations"])
+            if not clean:
+                reps.append(self.verify(c, cs, models_factory, max_paths))
+                continue
+            log(f"[pvc] {c.key}  ({len(sm['obligations'])} obligations proved in a worker, {sm['seconds']:.1f}s)")
+            rep = FunctionReport(c)
+            rep.paths, rep.seconds, rep.outcomes, rep.dropped = sm["paths"], sm["seconds"], sm["outcomes"], set(sm["dropped"])
+            rep.definitions = set(sm["definitions"])
+            for o in sm["obligations"]:
+                ob = Obligation(o["name"], [], z3.BoolVal(True), o["theory"])
+                ob.result = smt.Result("unsat", o["backend"], o["ms"])
+                ob.smt2 = o.get("smt2")
+                rep.obligations.append(ob)
+            self.reports.append(rep)
+            self.functions.append(c.key)
+            if sm.get("sample"):
+                self.samples.append(sm["sample"])
+            reps.append(rep)
+        return reps
+
     def add_obligation(self, name, status, backend, ms=0.0, detail=None, theory="interp", kind="property"):
         self.extra_obligations.append({"name": name, "status": status, "backend": backend, "ms": ms, "detail": detail, "theory": theory, "kind": kind})
 
@@ -134,6 +173,29 @@ def refuted(run, rep):
         else:
             if ob.name not in run.undecided:
                 run.undecided.append(ob.name)
+
+
+_WORK_ITEMS = None
+
+
+def _verify_worker(idx):
+    items, models_factory, max_paths = _WORK_ITEMS
+    c, cs = items[idx]
+    rep = verify_contract(c, REPO, cs, models_factory, max_paths=max_paths, log=None)
+    discharge(rep)
+    obs = []
+    sample = None
+    for ob in rep.obligations:
+        r = ob.result
+        obs.append({"name": ob.name, "status": r.status, "backend": r.backend, "ms": round(r.ms, 2), "theory": ob.theory})
+        if sample is None and r.status == "unsat" and not z3.is_true(ob.goal) and ob.hyps:
+            try:
+                txt = smt.to_smt2(ob.hyps, ob.goal)
+                if 200 < len(txt) < 5000:
+                    sample = {"obligation": ob.name, "smtlib_negated_vc": txt}
+            except Exception:
+                pass
+    return {"key": c.key, "status": rep.status, "reason": rep.reason, "paths": rep.paths, "seconds": rep.seconds, "outcomes": rep.outcomes, "dropped": sorted(rep.dropped), "definitions": sorted(getattr(rep, "definitions", set())), "obligations": obs, "sample": sample}
 
 
 def load_known_findings():
